@@ -51,13 +51,16 @@ Check(e) ==
                  \cup (IF closure THEN {} ELSE {"C07_Closure"})
                  \cup (IF requery THEN {"C07_NoRequery"} ELSE {})
                  \cup (IF reportedOk THEN {} ELSE {"C07_Reported"}),
-      known |-> Cardinality(known), top_unqueried |-> {U[i].addr : i \in {j \in Top(known) : U[j].addr \notin queried}}]
+      known |-> Cardinality(known), top_unqueried |-> {U[i].addr : i \in {j \in Top(known) : U[j].addr \notin queried}},
+      \* every unqueried entry of the closest K shares its IP with another known entry (the accumulator's per-IP rule kept that one)
+      shared_ip |-> \A i \in {j \in Top(known) : U[j].addr \notin queried} : Explained(i, known \cup SeqSet(e.seeds))]
 
 Init == l = 1
 Next == /\ l <= Len(Rec)
         /\ LET e == Rec[l] c == Check(e) IN
            IF c.failed # {} THEN PrintT(<<"VIOL", ToJson([line |-> l, b |-> e.b, failed |-> c.failed, kind |-> e.kind, node |-> e.node,
-                                         known |-> c.known, unqueried |-> c.top_unqueried])>>) ELSE TRUE
+                                         known |-> c.known, unqueried |-> c.top_unqueried,
+                                         only_closure |-> (c.failed = {"C07_Closure"}), shared_ip |-> c.shared_ip])>>) ELSE TRUE
         /\ l' = l + 1
 Spec == Init /\ [][Next]_l
 TraceAccepted == IF TLCGet("stats").diameter - 1 = Len(Rec) THEN TRUE
